@@ -539,7 +539,11 @@ func bbServer(c *vf.Ctx, bin string, w int) {
 					for _, id := range missing {
 						persistent[id] = true
 					}
-					for k := 0; k < 3 && len(persistent) > 0; k++ {
+					for k := 0; k < 4 && len(persistent) > 0; k++ {
+						// the rows of a column-store flush are invisible to conditional reads for
+						// about 100 ms around its completion (seen: the whole second file missing,
+						// then returned): give the layout time to settle between the repetitions
+						time.Sleep(time.Duration(100<<uint(2*k)) * time.Millisecond)
 						again, ec2 := bbIDs(s, v.name, where)
 						c.Eval(1)
 						if ec2 != "" {
